@@ -307,7 +307,8 @@ Section Agree.
   Proof.
     intros p Hs. destruct p; unfold rsat; simpl in Hs;
       repeat match goal with H : _ /\ _ |- _ => destruct H end.
-    - (* base *) destruct p; apply (psat_agree n a a' _ Hs Ha).
+    - (* base *) destruct p; try (apply (psat_agree n a a' _ Hs Ha)).
+      destruct op; apply (psat_agree n a a' (PCmpR _ x y b) Hs Ha).
     - simpl. rewrite sum_sem_agree, (Ha s) by assumption. reflexivity.
     - simpl. rewrite (vsem_agree n a a' x), (Ha s) by assumption. reflexivity.
     - simpl. unfold min_sem. destruct xs as [|v0 rest]; [reflexivity|]. inversion H; subst.
@@ -749,6 +750,7 @@ Definition desc_ok (p : rdesc) : Prop :=
   | PB (PAdd x y _) | PB (PMul x y _) | PB (PMod x y _) | PB (PLeq x y) | PB (PEq x y) | PB (PNeq x y) => view_ok x /\ view_ok y
   | PB (PLinEq cs xs _) | PB (PLinLe cs xs _) => all_zero cs xs = false      (* D11 *)
   | PB (PLinNe _ _ _) => True
+  | PB (PLinEqR cs xs _ _) | PB (PLinLeR cs xs _ _) | PB (PLinNeR cs xs _ _) => all_zero cs xs = false   (* D11, reified (fluent Or / Not) *)
   | PSum xs _ => Forall view_ok xs
   | PAbs x _ => view_ok x
   | PMin xs _ | PMax xs _ => xs <> []
@@ -771,6 +773,13 @@ Proof.
     + apply mk_lin_eq_good; assumption.
     + apply mk_lin_le_good; assumption.
     + apply mk_lin_ne_good.
+    + destruct op; [apply mk_eq_reif_good|apply mk_ne_reif_good|apply mk_lt_reif_good|apply mk_le_reif_good|apply mk_gt_reif_good|apply mk_ge_reif_good].
+    + apply mk_lin_eq_reif_good; assumption.
+    + apply mk_lin_le_reif_good; assumption.
+    + apply mk_lin_ne_reif_good; assumption.
+    + apply mk_band_good.
+    + apply mk_bor_good.
+    + apply mk_bnot_good.
   - apply mk_sum_good; assumption.
   - apply mk_abs_good; assumption.
   - apply mk_minof_good; assumption.
@@ -959,7 +968,7 @@ Ltac scope_tac :=
 Lemma denote_in_scope : forall n p, rdscoped n p -> in_scope (denote_route p) n.
 Proof.
   intros n p H v Hv. destruct p; simpl in H.
-  - destruct p; simpl in *; scope_tac.
+  - destruct p; try (destruct op); simpl in *; scope_tac.
   - simpl in Hv. destruct H as [H1 H2]. apply in_app_or in Hv. destruct Hv as [Hv|Hv]; [|scope_tac].
     apply in_flat_map in Hv. destruct Hv as [w [Hw Hv]]. rewrite Forall_forall in H1. eapply vscoped_uvarl; eauto.
   - simpl in Hv; scope_tac.
